@@ -36,6 +36,21 @@ def handle (st : DState) (line : String) : DState × String :=
     | "parseall" => match parseNats args with
       | some bs => (st, showExcept showMsgs (parseAll bs))
       | none => (st, "bad-op")
+    | "mnew" => match args with
+      | ty :: kws => match MetaType.ofName ty, kws.mapM parseKw with
+        | some t, some kw => (st, showExcept (fun (r : MetaMsg × PyVal) => r.1.show ++ " time=" ++ r.2.show) (metaNew t kw))
+        | _, _ => (st, "bad-op")
+      | _ => (st, "bad-op")
+    | "mbytes" => match args with
+      | cs :: rest => match parseCharset cs, parseMetaMsg rest with
+        | some c, some m => (st, showExcept showList (metaBytes c m))
+        | _, _ => (st, "bad-op")
+      | _ => (st, "bad-op")
+    | "mfrombytes" => match args with
+      | cs :: rest => match parseCharset cs, parseNats rest with
+        | some c, some bs => (st, showExcept MetaEvent.show (metaFromBytes c bs))
+        | _, _ => (st, "bad-op")
+      | _ => (st, "bad-op")
     | "preset" => ({ st with p := {} }, "ok")
     | "pfeed" => match parseInts args with
       | some bs => let (p, o) := pstep st.p (.feed bs); ({ st with p := p }, o.show)
